@@ -45,9 +45,12 @@ TReset == /\ E.ev = "Reset" /\ skipping' = FALSE
           /\ UNCHANGED <<bad, nvalid>>
 \* The harness cannot know whether a client that hung up produced FIN or RST; the recorded events decide.
 WithRst(t) == IF t.i <= Len(t.reqs) /\ t.reqs[t.i].kind = "unknown" /\ flags.noWire THEN [t EXCEPT !.reqs[t.i].rst = TRUE] ELSE t
+\* ... and likewise whether the interim 100 Continue could still be written: a failed write of it says it could not
+WithContFail(t) == IF t.i <= Len(t.reqs) THEN [t EXCEPT !.reqs[t.i].contFail = TRUE] ELSE t
 THook == /\ E.ev \in {"ReqRead", "Call", "Resp", "Copied", "ConnEnd"} /\ ~skipping
-         /\ LET u0 == NextEmit(s, 12)
-                u == IF Agrees(E, u0.emit, u0) THEN u0 ELSE NextEmit(WithRst(s), 12)
+         /\ LET s0 == IF E.ev = "Resp" /\ E.code = 100 /\ ~E.ok /\ flags.noWire THEN WithContFail(s) ELSE s
+                u0 == NextEmit(s0, 12)
+                u == IF Agrees(E, u0.emit, u0) THEN u0 ELSE NextEmit(WithRst(s0), 12)
                 x == u.emit IN
             IF x.o = "SpecProperty" THEN Fail(<<"SpecProperty violated at", u.pc>>)
             ELSE IF Agrees(E, x, u)
